@@ -316,6 +316,14 @@ class Expander:
             return
         if isinstance(st, ast.If):
             if self.on_if is None:
+                # default: a memoising branch (no else; its body stores attributes of self) is followed on its refreshing
+                # arm - that the stale arm is only taken for the same arguments is decided by the cache-key obligations
+                sn_ = self.selfname
+                stores = any(isinstance(t, ast.Attribute) and isinstance(t.ctx, ast.Store) and isinstance(t.value, ast.Name)
+                             and t.value.id == sn_ for s_ in st.body for t in ast.walk(s_))
+                if stores and not st.orelse:
+                    self.exec_block(st.body, env)
+                    return
                 raise Unsupported(f"branch at line {st.lineno} not selected by the rule")
             choice = self.on_if(st, env)
             if choice == "body":
